@@ -67,8 +67,10 @@ def fidelity(build, seed, n=60):
                 world = case_world(mod, seed, i, "quick")
                 plans = mod.build_plans(world)
                 for k, plan in enumerate(plans[:3]):
-                    a = dict(plan, cfg=dict(plan.get("cfg", {}), shuffle=True, dtype_unknown=True, short_reads=3, fill=0xA5, errno_noise=True, passthrough=False), id="a")
-                    b = dict(plan, cfg=dict(plan.get("cfg", {}), passthrough=True), id="b")
+                    # (descriptor 0 is closed only by the interposed mode; the descriptor count a budget op reports would
+                    #  differ by one for that reason alone, so the dimension is switched off on both sides)
+                    a = dict(plan, cfg=dict(plan.get("cfg", {}), shuffle=True, dtype_unknown=True, short_reads=3, fill=0xA5, errno_noise=True, passthrough=False, fd0_free=False), id="a")
+                    b = dict(plan, cfg=dict(plan.get("cfg", {}), passthrough=True, fd0_free=False), id="b")
                     ra, rb = ex.run(a), ex.run(b)
                     total += 1
                     va = canon(strip_volatile({"ops": ra.get("ops"), "tasks": ra.get("tasks"), "fatal": ra.get("fatal")}))
